@@ -114,6 +114,17 @@ def rules(ctx, prog, rid=None):
             top = top.children[0].strip(casts=True)
         shape = top.k == 'BinaryOperator' and top.op == '-' and q.refers_to_decl(top.children[0], locs['elen'][0]) and \
             q.refers_to_decl(mods[0].children[0], locs['elen'][0])
+    else:
+        # the same bound written with a mask: elen & ~(K-1), K a power of two
+        top = ee.strip(casts=True)
+        while top.k in ('InitListExpr',) and top.children:
+            top = top.children[0].strip(casts=True)
+        if top.k == 'BinaryOperator' and top.op == '&' and q.refers_to_decl(top.children[0], locs['elen'][0]):
+            mv_ = top.children[1].strip(casts=True).value
+            if mv_ is not None:
+                low = (~mv_) & 0xffff
+                if low & (low + 1) == 0:
+                    K, shape = low + 1, True
     ctx.check(shape and K % wbytes == 0 and cond.k == 'BinaryOperator' and cond.op == '<' and q.refers_to_decl(cond.children[0], iid) and
               q.refers_to_decl(cond.children[1], locs['eeii'][0]), R('R07.2'), M + 'calc_chksum#word-bound', ee.loc,
               'word loop runs while ii < elen - elen %% %s (a multiple of the word size)' % K)
@@ -155,8 +166,9 @@ def rules(ctx, prog, rid=None):
     okr = False
     if len(rets) == 1:
         s = rets[0].children[0].strip(casts=True)
-        okr = s.k == 'BinaryOperator' and s.op == '&' and s.children[1].strip(casts=True).value == 0xff and \
-            s.children[0].strip(casts=True).k == 'BinaryOperator' and s.children[0].strip(casts=True).op == '-'
+        okr = s.k == 'BinaryOperator' and ((s.op == '&' and s.children[1].strip(casts=True).value == 0xff) or (s.op == '%' and s.children[1].strip(casts=True).value == 256)) and \
+            s.children[0].strip(casts=True).k == 'BinaryOperator' and s.children[0].strip(casts=True).op == '-' and \
+            (s.op == '&' or (s.children[0].type or {}).get('signed') is False)       # % 256 equals & 0xff only on an unsigned operand
     ctx.check(okr, R('R07.3'), M + 'calc_chksum#reduce', f.loc, 'result = (word sum − carries) & 0xff')
     # R07.4 the f8String overload is a pure forwarder to the routine above: (text start, size, offset, len) in that order, nothing added
     so = [g for g in prog.fns(M + 'calc_chksum') if 'basic_string' in g.sig or 'f8String' in g.sig]
